@@ -98,7 +98,9 @@ func Packages(_ *generator.Context, arguments *args.GeneratorArgs) generator.Pac
 				// These types can't be keys in a map.
 				return false
 			case types.Builtin:
-				return true
+				// The members of a set are listed in ascending order:
+				// bool is the one builtin that has no "<".
+				return t != types.Bool
 			case types.Struct:
 				// Only some structs can be keys in a map. This is triggered by the line
 				// // +genset
